@@ -31,6 +31,10 @@ EXPLANATION = (
 def _adaptive_nodes(model):
     fi, prologue, for_node, while_node, tail, epilogue = ik.loop_structure(model)
     ad = [s for s in while_node.body if isinstance(s, ast.If) and ast.unparse(s.test) in ("self.adaptive", "not self.adaptive")]
+    if not ad:
+        # the test may say more than `self.adaptive` (an extra conjunct): the rules below are path rules and meet the other
+        # arm as a path of its own; this statement is only where their reports point
+        ad = [s for s in while_node.body if isinstance(s, ast.If) and "self.adaptive" in ast.unparse(s.test)][:1]
     if len(ad) != 1:
         raise AnalysisError("stepping loop no longer has exactly one `if self.adaptive:` statement",
                             where=astq.loc(fi, while_node))
